@@ -267,8 +267,63 @@ def design_flat_perm(r, name):
     return m
 
 
+def design_flat_parent(r, name):
+    """a bare #[parent] member (the post-init dialect of Into / TryInto): the parent's own mapping fills the counterpart
+    members it knows, the other members are mapped as usual; a member of S may designate a counterpart member that
+    the parent also writes — the parent's call runs after the plain assignments in every Into flavour"""
+    m = Module(name, "flat")
+    fallible = r.random() < 0.4
+    pre, err = ("try_", ", String") if fallible else ("", "")
+    nb = r.randrange(1, 4)
+    ns = r.randrange(1, 3)
+    dup = r.random() < 0.75
+    a_members = [f"b{k}" for k in range(nb)] + [f"s{k}" for k in range(ns)]
+    m.types.append(f"{DERIVES} pub struct A {{ " + ", ".join(f"pub {nm}: i64" for nm in a_members) + " }")
+    m.types.append(f"#[derive(o2o)] {DERIVES} #[{pre}from(A{err})] #[{pre}into_existing(A{err})] pub struct Base {{ " + ", ".join(f"pub b{k}: i64" for k in range(nb)) + " }")
+    fields = [("base", "#[parent] pub base: Base")] + [(f"s{k}", f"pub s{k}: i64") for k in range(ns)]
+    dup_to = r.randrange(nb)
+    if dup:
+        fields.append(("dup", f"#[map(b{dup_to})] pub dup: i64"))
+    r.shuffle(fields)
+    item = f"#[{pre}from(A{err})] #[{pre}into(A{err})] #[{pre}into_existing(A{err})] pub struct S {{ " + ", ".join(src for _, src in fields) + " }"
+    m.derive_src = item
+    m.types.append(f"#[derive(o2o)] {DERIVES} " + item)
+    aval = {nm: 10 * (i + 1) + 1 for i, nm in enumerate(a_members)}
+    a_v = ("named", "A", [(nm, aval[nm]) for nm in a_members])
+
+    def s_v(d):
+        return ("named", "S", [(nm, ("named", "Base", [(f"b{k}", d[f"base.b{k}"]) for k in range(nb)]) if nm == "base" else d[nm]) for nm, _ in fields])
+    exp_s = {f"base.b{k}": aval[f"b{k}"] for k in range(nb)}
+    exp_s.update({f"s{k}": aval[f"s{k}"] for k in range(ns)})
+    exp_s["dup"] = aval[f"b{dup_to}"]
+    sval = {f"base.b{k}": 100 + k for k in range(nb)}
+    sval.update({f"s{k}": 200 + k for k in range(ns)})
+    sval["dup"] = 300
+    exp_a = {f"b{k}": sval[f"base.b{k}"] for k in range(nb)}
+    exp_a.update({f"s{k}": sval[f"s{k}"] for k in range(ns)})
+    ea = ("named", "A", [(nm, exp_a[nm]) for nm in a_members])
+    pre_exist = ("named", "A", [(nm, 9000 + i) for i, nm in enumerate(a_members)])
+    a_lit, s_lit = lit(a_v), lit(s_v(sval))
+    if fallible:
+        m.tests.append(("from_owned", f'let a = {a_lit}; let r: Result<S, String> = S::try_from(a); println!("{name} from_owned {{:?}}", r);', dbg(("ok", s_v(exp_s)))))
+        m.tests.append(("from_ref", f'let a = {a_lit}; let r: Result<S, String> = S::try_from(&a); println!("{name} from_ref {{:?}}", r);', dbg(("ok", s_v(exp_s)))))
+        m.tests.append(("into_owned", f'let s = {s_lit}; let r: Result<A, String> = s.try_into(); println!("{name} into_owned {{:?}}", r);', dbg(("ok", ea))))
+        m.tests.append(("into_ref", f'let s = {s_lit}; let r: Result<A, String> = (&s).try_into(); println!("{name} into_ref {{:?}}", r);', dbg(("ok", ea))))
+        m.tests.append(("existing_owned", f'let s = {s_lit}; let mut o = {lit(pre_exist)}; s.try_into_existing(&mut o).unwrap(); println!("{name} existing_owned {{:?}}", o);', dbg(ea)))
+        m.tests.append(("existing_ref", f'let s = {s_lit}; let mut o = {lit(pre_exist)}; (&s).try_into_existing(&mut o).unwrap(); println!("{name} existing_ref {{:?}}", o);', dbg(ea)))
+    else:
+        m.tests.append(("from_owned", f'let a = {a_lit}; let r = S::from(a); println!("{name} from_owned {{:?}}", r);', dbg(s_v(exp_s))))
+        m.tests.append(("from_ref", f'let a = {a_lit}; let r = S::from(&a); println!("{name} from_ref {{:?}}", r);', dbg(s_v(exp_s))))
+        m.tests.append(("into_owned", f'let s = {s_lit}; let r: A = s.into(); println!("{name} into_owned {{:?}}", r);', dbg(ea)))
+        m.tests.append(("into_ref", f'let s = {s_lit}; let r: A = (&s).into(); println!("{name} into_ref {{:?}}", r);', dbg(ea)))
+        m.tests.append(("existing_owned", f'let s = {s_lit}; let mut o = {lit(pre_exist)}; s.into_existing(&mut o); println!("{name} existing_owned {{:?}}", o);', dbg(ea)))
+        m.tests.append(("existing_ref", f'let s = {s_lit}; let mut o = {lit(pre_exist)}; (&s).into_existing(&mut o); println!("{name} existing_ref {{:?}}", o);', dbg(ea)))
+    return m
+
+
 def design_flat_any(r, name):
-    return design_flat_perm(r, name) if r.random() < 0.15 else design_flat(r, name)
+    t = r.random()
+    return design_flat_perm(r, name) if t < 0.15 else design_flat_parent(r, name) if t < 0.3 else design_flat(r, name)
 
 
 # ------------------------------------------------------------------------------------------------
@@ -377,6 +432,73 @@ def design_tree(r, name):
         m.tests.append(("existing_owned", f'let s = {lit(s_in)}; let mut o = {lit(a_pre)}; s.into_existing(&mut o); println!("{name} existing_owned {{:?}}", o);', dbg(exp_a)))
         m.tests.append(("existing_ref", f'let s = {lit(s_in)}; let mut o = {lit(a_pre)}; (&s).into_existing(&mut o); println!("{name} existing_ref {{:?}}", o);', dbg(exp_a)))
     return m
+
+
+def design_tree_hints(r, name):
+    """nested counterparts of mixed shapes: a positional level next to a named one, and a grandchild that is populated
+    only by struct-level ghost entries (`path@member: { value }`)"""
+    m = Module(name, "tree")
+    shape = r.randrange(2)
+    nplain = r.randrange(1, 3)
+    nchild = r.randrange(1, 3)
+    gval = [321 + i for i in range(r.randrange(1, 3))]
+    fallible = r.random() < 0.25
+    pre, err = ("try_", ", String") if fallible else ("", "")
+    with_existing = r.random() < 0.6
+    m.types.append(f"{DERIVES} pub struct M {{ " + ", ".join(f"pub id{i}: i64" for i in range(len(gval))) + " }")
+    if shape == 0:
+        # A { p.., v: V }   V(c.., M)   M { id.. }
+        m.types.append(f"{DERIVES} pub struct V(" + ", ".join(["pub i64"] * nchild + ["pub M"]) + ");")
+        m.types.append(f"{DERIVES} pub struct A {{ " + ", ".join([f"pub p{i}: i64" for i in range(nplain)] + ["pub v: V"]) + " }")
+        gpath = f"v.{nchild}"
+        cps = f"v: V as (), {gpath}: M"
+        hint = ""
+        fields = [f"pub p{i}: i64" for i in range(nplain)] + [f"#[child(v)] #[map({i})] pub c{i}: i64" for i in range(nchild)]
+    else:
+        # A(p.., V)   V { c.., m: M }   M { id.. }
+        m.types.append(f"{DERIVES} pub struct V {{ " + ", ".join([f"pub c{i}: i64" for i in range(nchild)] + ["pub m: M"]) + " }")
+        m.types.append(f"{DERIVES} pub struct A(" + ", ".join(["pub i64"] * nplain + ["pub V"]) + ");")
+        gpath = f"{nplain}.m"
+        cps = f"{nplain}: V as {{}}, {gpath}: M"
+        hint = " as ()"
+        fields = [f"#[map({i})] pub p{i}: i64" for i in range(nplain)] + [f"#[child({nplain})] pub c{i}: i64" for i in range(nchild)]
+    ghosts = ", ".join(f"{gpath}@id{i}: {{ {g} }}" for i, g in enumerate(gval))
+    attrs = [f"#[{pre}map(A{hint}{err})]"] + ([f"#[{pre}into_existing(A{hint}{err})]"] if with_existing else []) + [f"#[child_parents({cps})]", f"#[ghosts({ghosts})]"]
+    item = " ".join(attrs) + " pub struct S { " + ", ".join(fields) + " }"
+    m.derive_src = item
+    m.types.append(f"#[derive(o2o)] {DERIVES} " + item)
+    pv = lambda b: [b + i for i in range(nplain)]
+    cv = lambda b: [b + 50 + i for i in range(nchild)]
+
+    def a_value(b, ids):
+        mv = ("named", "M", [(f"id{i}", x) for i, x in enumerate(ids)])
+        if shape == 0:
+            return ("named", "A", [(f"p{i}", x) for i, x in enumerate(pv(b))] + [("v", ("tuple", "V", cv(b) + [mv]))])
+        return ("tuple", "A", pv(b) + [("named", "V", [(f"c{i}", x) for i, x in enumerate(cv(b))] + [("m", mv)])])
+    s_value = lambda b: ("named", "S", [(f"p{i}", x) for i, x in enumerate(pv(b))] + [(f"c{i}", x) for i, x in enumerate(cv(b))])
+    a_in, s_in = a_value(10, [7] * len(gval)), s_value(100)
+    exp_s, exp_a = s_value(10), a_value(100, gval)
+    a_pre = a_value(9000, [9] * len(gval))
+    wrap = (lambda v: ("ok", v)) if fallible else (lambda v: v)
+    if fallible:
+        m.tests.append(("from_owned", f'let a = {lit(a_in)}; let r: Result<S, String> = S::try_from(a); println!("{name} from_owned {{:?}}", r);', dbg(wrap(exp_s))))
+        m.tests.append(("into_owned", f'let s = {lit(s_in)}; let r: Result<A, String> = s.try_into(); println!("{name} into_owned {{:?}}", r);', dbg(wrap(exp_a))))
+        m.tests.append(("into_ref", f'let s = {lit(s_in)}; let r: Result<A, String> = (&s).try_into(); println!("{name} into_ref {{:?}}", r);', dbg(wrap(exp_a))))
+        if with_existing:
+            m.tests.append(("existing_owned", f'let s = {lit(s_in)}; let mut o = {lit(a_pre)}; s.try_into_existing(&mut o).unwrap(); println!("{name} existing_owned {{:?}}", o);', dbg(exp_a)))
+    else:
+        m.tests.append(("from_owned", f'let a = {lit(a_in)}; let r = S::from(a); println!("{name} from_owned {{:?}}", r);', dbg(exp_s)))
+        m.tests.append(("from_ref", f'let a = {lit(a_in)}; let r = S::from(&a); println!("{name} from_ref {{:?}}", r);', dbg(exp_s)))
+        m.tests.append(("into_owned", f'let s = {lit(s_in)}; let r: A = s.into(); println!("{name} into_owned {{:?}}", r);', dbg(exp_a)))
+        m.tests.append(("into_ref", f'let s = {lit(s_in)}; let r: A = (&s).into(); println!("{name} into_ref {{:?}}", r);', dbg(exp_a)))
+        if with_existing:
+            m.tests.append(("existing_owned", f'let s = {lit(s_in)}; let mut o = {lit(a_pre)}; s.into_existing(&mut o); println!("{name} existing_owned {{:?}}", o);', dbg(exp_a)))
+            m.tests.append(("existing_ref", f'let s = {lit(s_in)}; let mut o = {lit(a_pre)}; (&s).into_existing(&mut o); println!("{name} existing_ref {{:?}}", o);', dbg(exp_a)))
+    return m
+
+
+def design_tree_any(r, name):
+    return design_tree_hints(r, name) if r.random() < 0.2 else design_tree(r, name)
 
 
 # ------------------------------------------------------------------------------------------------
@@ -511,7 +633,13 @@ def design_prim(r, name):
     return m
 
 
-FAMILIES = {"flat": design_flat_any, "tree": design_tree, "enum": design_enum, "prim": design_prim}
+def design_flat7(r, name):
+    """the mix used for C07: more #[parent] programs (all six flavours of one mapping side by side)"""
+    t = r.random()
+    return design_flat_perm(r, name) if t < 0.1 else design_flat_parent(r, name) if t < 0.55 else design_flat(r, name)
+
+
+FAMILIES = {"flat7": design_flat7, "flat": design_flat_any, "tree": design_tree_any, "hints": design_tree_hints, "enum": design_enum, "prim": design_prim}
 
 
 # ------------------------------------------------------------------------------------------------
